@@ -310,7 +310,7 @@ func (m *Machine) callBuiltin(th *Thread, name string, args []Value, caller *Fra
 		return nil
 	case "builtin:close":
 		m.chanClose(args[0])
-		m.schedPoint("close")
+		m.wantYield = "close" // (a direct schedPoint here would re-execute the close after a preemption)
 		return nil
 	case "builtin:panic":
 		m.raise(args[0])
